@@ -9,7 +9,7 @@ PROPERTY = 'C20'
 RULE = ('cases = one call of a generator method on a generated data set (n <= 600 quick / 2000 thorough for the n x n projector; columns with '
         'different value domains): generate_correlated with r in {+-0.99, +-0.5, +-0.1, 0, random} on single / multiple indices; '
         'generate_duplicates and generate_combinations (linear, nonlinear, custom and bitwise functions) incl. their dataset_info records; '
-        'generate_labels with harness-supplied tie-free decision functions, 2..6 classes, p as float / list / ndarray; generate_noise '
+        'generate_labels with harness-supplied tie-free decision functions and with the built-in linear / nonlinear relations, 2..64 classes, p as float / list / ndarray; generate_noise '
         '(categorical and missing, levels 0..0.9, labels 0..k-1); downsample_dataset with sizes 1..min class, with and without reshuffle. '
         'distinct = (method, argument signature); non-trivial = the method changed or added data.')
 REQUIRED = {'correlation=r': 40, 'duplicates-exact': 40, 'combination=function': 40, 'info-indices': 80, 'labels-monotone-proportions': 60,
